@@ -197,6 +197,9 @@ def hashable_rows(
     # if it is flat integers already return
     if len(as_int.shape) == 1:
         return as_int
+    # a single column is already one hashable integer per row
+    if len(as_int.shape) == 2 and as_int.shape[1] == 1:
+        return as_int.reshape(-1)
 
     # if array is 2D and smallish, we can try bitbanging
     # this is significantly faster than the custom dtype
